@@ -115,6 +115,8 @@ pub struct SrcCfg {
     pub cuts: Vec<usize>,
     /// always deliver at most this many bytes per call (0 = no limit)
     pub max_chunk: usize,
+    /// size of the very first delivery (0 = tape decides)
+    pub first_read: usize,
 }
 
 pub struct SimSource {
@@ -200,6 +202,14 @@ impl SimSource {
         }
         let pos = self.pos;
         let want = want.min(avail);
+        if self.cfg.first_read > 0 && self.handed == 0 {
+            let n = self.cfg.first_read.min(want);
+            self.env.with(|e| {
+                e.obs.fault("first-read-cut");
+                e.obs.ev("rd", n as u64, pos as u64)
+            });
+            return Ok(n);
+        }
         let short = self.cfg.short;
         let intr = self.cfg.interrupted && self.consecutive_intr < 3;
         let cuts = &self.cfg.cuts;
